@@ -52,6 +52,7 @@ type rdSig struct {
 	recv     string
 	optional bool
 	results  []string // types of the non-error results
+	exts     map[string]string // external functions the callee takes as parameters (passed on by a caller)
 }
 
 var rdSigs = map[string]rdSig{}
@@ -759,18 +760,28 @@ func (t *rdTr) ret(r *ast.ReturnStmt) string {
 		}
 	}
 	var parts []string
+	pre := ""
 	for i, e := range res {
 		want := ""
 		if i < len(t.resTypes()) {
 			want = t.resTypes()[i]
 		}
+		// S[i] on a []uint64 as a result: the index is checked first (out of range panics)
+		if ix, ok := e.(*ast.IndexExpr); ok {
+			if sl, sty := t.expr(ix.X, ""); sty == "[]u64" {
+				idx, _ := t.expr(ix.Index, "int")
+				pre += fmt.Sprintf("do r_%d <- go_index %s %s;\n  ", i, sl, idx)
+				parts = append(parts, fmt.Sprintf("r_%d", i))
+				continue
+			}
+		}
 		c, _ := t.expr(e, want)
 		parts = append(parts, c)
 	}
 	if len(parts) == 1 {
-		return "Ok " + parts[0]
+		return pre + "Ok " + parts[0]
 	}
-	return "Ok (" + strings.Join(parts, ", ") + ")"
+	return pre + "Ok (" + strings.Join(parts, ", ") + ")"
 }
 
 func (t *rdTr) resTypes() []string {
@@ -830,6 +841,10 @@ func (t *rdTr) assign(x *ast.AssignStmt, rest []ast.Stmt, k func() string) strin
 						t.needFuel = true
 						call += " fuel"
 					}
+					for _, e := range sortedKeysS(sig.exts) { // the callee's external parameters become the caller's
+						t.externals[e] = sig.exts[e]
+						call += " " + e
+					}
 					for _, a := range c.Args {
 						e, _ := t.expr(a, "")
 						call += " " + e
@@ -860,6 +875,10 @@ func (t *rdTr) assign(x *ast.AssignStmt, rest []ast.Stmt, k func() string) strin
 					if sig.fuel {
 						t.needFuel = true
 						call += " fuel"
+					}
+					for _, e := range sortedKeysS(sig.exts) { // the callee's external parameters become the caller's
+						t.externals[e] = sig.exts[e]
+						call += " " + e
 					}
 					for _, a := range c.Args {
 						e, _ := t.expr(a, "")
@@ -1307,7 +1326,7 @@ func (p *pkgInfo) translateReader(key string) string {
 	for _, e := range sortedKeysS(t.externals) {
 		ps = append(ps, "("+e+" : "+t.externals[e]+")")
 	}
-	rdSigs[key] = rdSig{fuel: t.hasLoop || t.needFuel, fixed: fixed, free: free, recv: t.recv, optional: t.optional, results: t.resTypes()}
+	rdSigs[key] = rdSig{fuel: t.hasLoop || t.needFuel, fixed: fixed, free: free, recv: t.recv, optional: t.optional, results: t.resTypes(), exts: t.externals}
 	for _, n := range fixed {
 		ps = append(ps, "(v_"+n+" : "+coqType(t.types[n])+")")
 	}
